@@ -2,6 +2,7 @@
 package c20
 
 import (
+	"verif/internal/metamodel"
 	"context"
 	"encoding/json"
 	"fmt"
@@ -30,6 +31,8 @@ type Case struct {
 	AllowExt bool              `json:"allow_ext"`
 	VOpts    int               `json:"vopts"`
 }
+
+type M = map[string]any
 
 var corpus []any
 
@@ -61,9 +64,10 @@ func loadCorpus() {
 	}
 }
 
-var prop = &h.Prop[Case]{ID: "C20", Gen: gen, Check: check, Journal: true}
+var prop = &h.Prop[Case]{ID: "C20", Gen: gen, Check: check, Enum: enumerate, Journal: true}
 
 func TestRapid(t *testing.T)  { prop.Rapid(t) }
+func TestEnum(t *testing.T)   { prop.Enumerate(t) }
 func TestReplay(t *testing.T) { prop.Replay(t) }
 func FuzzC20(f *testing.F)    { prop.Fuzz(f) }
 
@@ -166,6 +170,96 @@ func check(c Case) (o h.Outcome) {
 		return
 	}
 	return
+}
+
+// ---------------------------------------------------------------------------------------
+// enumeration: reference cycles of the right and of the wrong kind at every reference position
+//
+// For every component kind K (and path items) and every position inside a K object where the
+// meta-model allows a reference, the skeleton document holds one K component P whose position refers
+//   self      back to P itself (an ancestor; of the wrong kind unless the position expects a K),
+//   aliased   the same, with a component A = {$ref: P} that is resolved before P,
+//   via-other to a component Q of the kind the position expects, which is itself a reference to P,
+//   interior  to the container just above the position,
+//   reached   the same as self, with an operation that refers to P.
+func enumerate(shard, nshards int, yield func(Case)) {
+	m := metamodel.V3
+	idx := 0
+	emit := func(doc M) {
+		idx++
+		if idx%nshards != shard {
+			return
+		}
+		b, _ := json.Marshal(doc)
+		yield(Case{Files: map[string][]byte{"/w/root.json": b, "/w/aux.json": []byte(auxDoc)}, Root: "/w/root.json", Entry: []string{"data", "datawithpath", "uri"}[idx%3], AllowExt: idx%2 == 0})
+	}
+	base := func(comps M, paths M) M {
+		return M{"openapi": "3.0.3", "info": M{"title": "t", "version": "1"}, "paths": paths, "components": comps}
+	}
+	pathSlots := m.RefSlots("PathItem", 2)
+	kinds := append(jv.Keys(anyMap(m.CompField)), "PathItem")
+	depth := 4
+	if h.Thorough() {
+		depth = 5
+	}
+	for _, kind := range kinds {
+		sec := m.CompField[kind]
+		self := "#/components/" + sec + "/P"
+		if kind == "PathItem" {
+			self = "#/paths/~1p"
+		}
+		place := func(obj any, extra M) M {
+			if kind == "PathItem" {
+				paths := M{"/p": obj}
+				for k, v := range extra {
+					paths[k] = v
+				}
+				return base(M{}, paths)
+			}
+			section := M{"P": obj}
+			for k, v := range extra {
+				section[k] = v
+			}
+			return base(M{sec: section}, M{})
+		}
+		for _, sl := range m.RefSlots(kind, depth) {
+			ref := M{"$ref": self}
+			emit(place(sl.Build(ref), nil))
+			emit(place(sl.Build(ref), M{"A": M{"$ref": self}}))
+			emit(place(sl.Build(ref), M{"Z": M{"$ref": self}}))
+			if osec, ok := m.CompField[sl.RefKind]; ok {
+				d := place(sl.Build(M{"$ref": "#/components/" + osec + "/Q"}), nil)
+				comps := d["components"].(M)
+				if os, ok := comps[osec].(M); ok {
+					os["Q"] = M{"$ref": self}
+				} else {
+					comps[osec] = M{"Q": M{"$ref": self}}
+				}
+				emit(d)
+			}
+			if ptr := sl.Pointer(); len(ptr) > 1 {
+				emit(place(sl.Build(M{"$ref": self + ptrString(ptr[:len(ptr)-1])[1:]}), nil))
+			}
+			if kind != "PathItem" {
+				for _, ps := range pathSlots {
+					if ps.RefKind == kind {
+						d := place(sl.Build(ref), nil)
+						d["paths"] = M{"/p": ps.Build(M{"$ref": self})}
+						emit(d)
+						break
+					}
+				}
+			}
+		}
+	}
+}
+
+func anyMap(m map[string]string) map[string]any {
+	out := map[string]any{}
+	for k, v := range m {
+		out[k] = v
+	}
+	return out
 }
 
 // ---------------------------------------------------------------------------------------
